@@ -231,3 +231,286 @@ Section Scatter.
     intros H. apply (is_perm_complete nw); [split; [exact ND|split; assumption]|lia].
   Qed.
 End Scatter.
+
+(* ------------------------------------------------------------------ the port, unfolded *)
+Lemma filter_map_comm {A B} (f : B -> bool) (g : A -> B) l :
+  filter f (map g l) = map g (filter (fun x => f (g x)) l).
+Proof. induction l as [|x l IH]; cbn; [reflexivity|]. destruct (f (g x)); cbn; rewrite IH; reflexivity. Qed.
+
+Lemma py_range_minus_compl nw ws : py_range_minus (Z.of_nat nw) (zw ws) = zw (compl nw ws).
+Proof.
+  unfold py_range_minus, compl, zw. rewrite zrange_0_nat, filter_map_comm. f_equal.
+  apply filter_ext. intros w. f_equal. unfold mem_nat.
+  induction ws as [|x ws IH]; cbn; [reflexivity|]. rewrite IH. f_equal.
+  destruct (Nat.eqb_spec w x); destruct (Z.eqb_spec (Z.of_nat w) (Z.of_nat x)); try reflexivity; lia.
+Qed.
+
+Lemma zlen_zw ws : zlen (zw ws) = Z.of_nat (length ws).
+Proof. unfold zlen, zw. rewrite map_length. reflexivity. Qed.
+
+Lemma accum_false rng cond incr : (forall b, In b rng -> cond b = false) -> accum rng cond incr = 0.
+Proof.
+  intros H. rewrite accum_zsum. unfold zsum. induction rng as [|b rng IH]; [reflexivity|].
+  cbn [map fold_right]. rewrite H by (left; reflexivity). rewrite IH; [reflexivity|].
+  intros; apply H; right; assumption.
+Qed.
+
+Lemma map_flat_map {A B C} (f : B -> C) (F : A -> list B) l :
+  map f (flat_map F l) = flat_map (fun x => map f (F x)) l.
+Proof. induction l as [|x l IH]; cbn; [reflexivity|]. rewrite map_app, IH. reflexivity. Qed.
+
+Lemma combine_app_len {A B} (a1 a2 : list A) (b1 b2 : list B) : length a1 = length b1 ->
+  combine (a1 ++ a2) (b1 ++ b2) = combine a1 b1 ++ combine a2 b2.
+Proof.
+  revert b1; induction a1 as [|x a1 IH]; intros [|y b1] H; try discriminate; [reflexivity|].
+  cbn in *. injection H as H. rewrite IH by exact H. reflexivity.
+Qed.
+
+Definition zbits (m : nat) (j : Z) : bits := n2b m (Z.to_nat j).
+Lemma zbits_length m j : length (zbits m j) = m.
+Proof. apply n2b_length. Qed.
+Lemma b2z_zbits m j : 0 <= j < 2 ^ Z.of_nat m -> b2z (zbits m j) = j.
+Proof.
+  intros H. unfold b2z, zbits. rewrite b2n_n2b; [lia|].
+  apply Nat2Z.inj_lt. rewrite Nat2Z.inj_pow. change (Z.of_nat 2) with 2. lia.
+Qed.
+Lemma app_eq_len {A} (a1 b1 a2 b2 : list A) : length a1 = length a2 -> a1 ++ b1 = a2 ++ b2 -> a1 = a2 /\ b1 = b2.
+Proof.
+  revert a2; induction a1 as [|x a1 IH]; intros [|y a2] Hl E; try discriminate; [split; [reflexivity|exact E]|].
+  cbn in *. injection E as -> E. injection Hl as Hl. destruct (IH a2 Hl E) as [-> ->]. split; reflexivity.
+Qed.
+
+Section Port.
+  Variable nw : nat.
+  Variable ws : list nat.
+  Hypothesis W : wires_ok nw ws.
+  Let m := length ws.
+  Let cs := compl nw ws.
+  Let nwz := Z.of_nat nw.
+  Let mz := Z.of_nat m.
+
+  (** row/column scattering and replica offset, literally as they appear in the port *)
+  Definition rowf (j : Z) : Z :=
+    accum (zrange 0 (zlen (zw ws))) (fun b => truthy (Z.land j (Z.shiftl 1 b)))
+          (fun b => Z.shiftl 1 (znth (rev_pos nw ws) b)).
+  Definition cpos : list Z :=
+    map (fun b => Z.of_nat nw - 1 - znth (zw (compl nw ws)) (Z.of_nat nw - zlen (zw ws) - 1 - b))
+        (zrange 0 (Z.of_nat nw - zlen (zw ws))).
+  Definition koff (k : Z) : Z :=
+    accum (zrange 0 (Z.of_nat nw - zlen (zw ws))) (fun b => truthy (Z.land k (Z.shiftl 1 b)))
+          (fun b => Z.shiftl 1 (znth cpos b)).
+
+  Lemma cs_len : (m + length cs = nw)%nat.
+  Proof. apply compl_length. exact W. Qed.
+
+  Lemma cpos_eq : cpos = rev_pos nw cs.
+  Proof.
+    unfold cpos, rev_pos. pose proof cs_len as E. cbv zeta.
+    replace (zlen (zw cs)) with (Z.of_nat nw - zlen (zw ws)) by (rewrite !zlen_zw; fold m; lia).
+    reflexivity.
+  Qed.
+
+  Lemma rowf_wsum a : length a = m -> rowf (b2z a) = wsum nwz (combine a (zw ws)).
+  Proof. intros Ha. unfold rowf. apply scatter_wsum; [exact Ha|apply W]. Qed.
+  Lemma koff_wsum b : length b = length cs -> koff (b2z b) = wsum nwz (combine b (zw cs)).
+  Proof.
+    intros Hb. unfold koff. pose proof cs_len as E. rewrite cpos_eq.
+    replace (Z.of_nat nw - zlen (zw ws)) with (zlen (zw cs)) by (rewrite !zlen_zw; fold m; lia).
+    apply scatter_wsum; [exact Hb|]. intros w Hw. apply in_compl in Hw. tauto.
+  Qed.
+  Lemma koff_0 : koff 0 = 0.
+  Proof. apply accum_false. intros b _. rewrite Z.land_0_l. reflexivity. Qed.
+
+  (** a sum of distinct powers of two has exactly those bits *)
+  Lemma scatter_sum_iff a b r : length a = m -> length b = length cs -> length r = nw ->
+    (wsum nwz (combine a (zw ws)) + wsum nwz (combine b (zw cs)) = b2z r
+     <-> a = gather ws r /\ b = gather cs r).
+  Proof.
+    intros Ha Hb Hr. pose proof cs_len as E.
+    pose proof (wire_order_perm nw ws W) as P.
+    assert (S1 : wsum nwz (combine a (zw ws)) + wsum nwz (combine b (zw cs))
+                 = wsum nwz (combine (a ++ b) (zw (wire_order nw ws)))).
+    { unfold wire_order, zw. rewrite map_app. fold (zw ws) (zw (compl nw ws)).
+      rewrite combine_app_len by (unfold zw; rewrite map_length; exact Ha). apply eq_sym, wsum_app. }
+    rewrite S1.
+    set (r' := gather (invperm (wire_order nw ws)) (a ++ b)).
+    assert (Lab : length (a ++ b) = nw) by (rewrite app_length; lia).
+    assert (G' : gather (wire_order nw ws) r' = a ++ b) by (apply (gather_invperm_r nw); assumption).
+    assert (Lr' : length r' = nw).
+    { unfold r'. rewrite gather_length, invperm_length. destruct P as [_ [Hl _]]. exact Hl. }
+    rewrite <- G'. unfold nwz. rewrite (wsum_gather nw _ r' P Lr').
+    split.
+    - intros Eb. apply b2z_inj in Eb; [|congruence].
+      rewrite Eb in G'. unfold wire_order in G'. rewrite gather_app in G'.
+      apply app_eq_len in G'; [|rewrite gather_length; fold m; lia].
+      destruct G' as [G1 G2]. split; symmetry; assumption.
+    - intros [-> ->]. f_equal. unfold r'. rewrite <- gather_app. apply (gather_invperm_l nw); assumption.
+  Qed.
+End Port.
+
+(** which (row, replica) pairs land on a given register index *)
+Lemma scatter_eqb nw ws j k r : wires_ok nw ws ->
+  0 <= j < 2 ^ Z.of_nat (length ws) -> 0 <= k < 2 ^ Z.of_nat (length (compl nw ws)) -> length r = nw ->
+  (rowf nw ws j + koff nw ws k =? b2z r)
+  = (j =? b2z (gather ws r)) && (k =? b2z (gather (compl nw ws) r)).
+Proof.
+  intros W Hj Hk Hr.
+  assert (Xa : exists a, length a = length ws /\ b2z a = j)
+    by (exists (zbits (length ws) j); split; [apply zbits_length|apply b2z_zbits; exact Hj]).
+  assert (Xb : exists b, length b = length (compl nw ws) /\ b2z b = k)
+    by (exists (zbits (length (compl nw ws)) k); split; [apply zbits_length|apply b2z_zbits; exact Hk]).
+  destruct Xa as [a [La <-]]. destruct Xb as [b [Lb <-]].
+  rewrite (rowf_wsum nw ws W a La), (koff_wsum nw ws W b Lb).
+  pose proof (scatter_sum_iff nw ws W a b r La Lb Hr) as I.
+  destruct (Z.eqb_spec (wsum (Z.of_nat nw) (combine a (zw ws)) + wsum (Z.of_nat nw) (combine b (zw (compl nw ws)))) (b2z r)) as [E|E].
+  - apply I in E. destruct E as [-> ->]. rewrite !Z.eqb_refl. reflexivity.
+  - destruct (Z.eqb_spec (b2z a) (b2z (gather ws r))) as [E1|E1]; [|reflexivity].
+    destruct (Z.eqb_spec (b2z b) (b2z (gather (compl nw ws) r))) as [E2|E2]; [|reflexivity].
+    exfalso. apply E, I. split; apply b2z_inj; try assumption; rewrite gather_length; assumption.
+Qed.
+
+(** unfolding of the port for distinct in-range wires *)
+Lemma distribute_inv {V} (d : V) nw ws g T : wires_ok nw ws ->
+  distribute d (Z.of_nat nw) (zw ws) g = Some T ->
+  c_nrows g = 2 ^ zlen (zw ws) /\
+  exists base,
+    base_block d g (csr_loop g (zrange 0 (2 ^ zlen (zw ws))) (rowf nw ws) (rowf nw ws)) = Some base /\
+    T = base ++ flat_map (fun k => shift_block (koff nw ws k) base)
+                         (zrange 1 (2 ^ (Z.of_nat nw - zlen (zw ws)))).
+Proof.
+  intros W. unfold distribute. rewrite py_range_minus_compl. unfold py_assert.
+  destruct (zlen (zw ws) + zlen (zw (compl nw ws)) =? Z.of_nat nw); [|discriminate].
+  destruct (zlen (zw ws) <=? Z.of_nat nw); [|discriminate].
+  destruct (Z.eqb_spec (c_nrows g) (2 ^ zlen (zw ws))) as [En|]; [|discriminate].
+  intros H. split; [exact En|].
+  match type of H with match ?B with _ => _ end = _ => destruct B as [base|] eqn:EB; [|discriminate] end.
+  exists base. split; [exact EB|]. injection H as <-. reflexivity.
+Qed.
+
+(** the port accepts exactly when the asserts hold; for distinct in-range wires they do *)
+Lemma distribute_accepts {V} (d : V) nw ws g : wires_ok nw ws ->
+  c_nrows g = 2 ^ zlen (zw ws) ->
+  (exists base, base_block d g (csr_loop g (zrange 0 (2 ^ zlen (zw ws))) (rowf nw ws) (rowf nw ws)) = Some base) ->
+  exists T, distribute d (Z.of_nat nw) (zw ws) g = Some T.
+Proof.
+  intros W En [base EB]. unfold distribute. rewrite py_range_minus_compl. unfold py_assert.
+  pose proof (compl_length nw ws W) as E.
+  replace (zlen (zw ws) + zlen (zw (compl nw ws)) =? Z.of_nat nw) with true
+    by (symmetry; apply Z.eqb_eq; rewrite !zlen_zw; lia).
+  replace (zlen (zw ws) <=? Z.of_nat nw) with true by (symmetry; apply Z.leb_le; rewrite zlen_zw; lia).
+  rewrite En, Z.eqb_refl.
+  change (base_block d g _) with
+    (base_block d g (csr_loop g (zrange 0 (2 ^ zlen (zw ws))) (rowf nw ws) (rowf nw ws))).
+  rewrite EB. eexists. reflexivity.
+Qed.
+
+Section Main.
+  Context {K : Scalar} {L : ScalarLaws K}.
+  Local Open Scope K_scope.
+  Add Ring KringD : (s_ring K L).
+
+  Lemma te_app (a b : list (triple K)) r c :
+    triples_entry a r c + triples_entry b r c = triples_entry (a ++ b) r c.
+  Proof. unfold triples_entry. rewrite map_app. symmetry. apply lsum_app. Qed.
+  Lemma te_flat_map {A} (F : A -> list (triple K)) l r c :
+    triples_entry (flat_map F l) r c = lsum (map (fun x => triples_entry (F x) r c) l).
+  Proof.
+    induction l as [|x l IH]; cbn [flat_map map]; [reflexivity|].
+    rewrite <- te_app, lsum_cons, IH. reflexivity.
+  Qed.
+  Lemma lsum_zrange_single (f : Z -> K) lo hi a : (lo <= a < hi)%Z ->
+    (forall x, (lo <= x < hi)%Z -> x <> a -> f x = 0) -> lsum (map f (zrange lo hi)) = f a.
+  Proof.
+    intros Ha Hz. apply lsum_map_single; [apply zrange_NoDup|apply in_zrange; exact Ha|].
+    intros x Hx. apply Hz. apply in_zrange. exact Hx.
+  Qed.
+
+  Definition csr_cols_ok (m : nat) (g : csr K) : Prop :=
+    forall j i, (0 <= j < 2 ^ Z.of_nat m)%Z ->
+      In i (zrange (znth (c_indptr g) j) (znth (c_indptr g) (j + 1))) ->
+      (0 <= znth (c_indices g) i < 2 ^ Z.of_nat m)%Z.
+
+  (** one replica block, as a double sum over gate rows and their CSR entries *)
+  Definition block_sum (nw : nat) (ws : list nat) (g : csr K) (o : Z) (r c : bits) : K :=
+    lsum (map (fun j =>
+      lsum (map (fun i => if ((rowf nw ws j + o =? b2z r) && (rowf nw ws (znth (c_indices g) i) + o =? b2z c))%Z
+                          then nth (Z.to_nat i) (c_data g) 0 else 0)
+                (zrange (znth (c_indptr g) j) (znth (c_indptr g) (j + 1)))))
+      (zrange 0 (2 ^ zlen (zw ws)))).
+
+  Lemma block_entry nw ws (g : csr K) base o r c :
+    base_block 0 g (csr_loop g (zrange 0 (2 ^ zlen (zw ws))) (rowf nw ws) (rowf nw ws)) = Some base ->
+    triples_entry (shift_block o base) r c = block_sum nw ws g o r c.
+  Proof.
+    unfold base_block. destruct (zlist_eqb _ _); [|discriminate]. intros H. injection H as <-.
+    unfold shift_block, csr_loop. rewrite !map_flat_map.
+    rewrite te_flat_map. unfold block_sum. apply lsum_map_ext. intros j _.
+    unfold triples_entry. rewrite !map_map. apply lsum_map_ext. intros i _. cbn [fst snd]. reflexivity.
+  Qed.
+
+  Lemma shift_block_0 (base : list (triple K)) : shift_block 0 base = base.
+  Proof.
+    unfold shift_block. rewrite <- (map_id base) at 2. apply map_ext.
+    intros [[a b] v]. cbn [fst snd]. rewrite !Z.add_0_r. reflexivity.
+  Qed.
+
+  (** MAIN: the triples produced by the port are the entries of the embedding *)
+  Theorem distribute_entry nw ws (g : csr K) T :
+    wires_ok nw ws -> csr_cols_ok (length ws) g ->
+    distribute 0 (Z.of_nat nw) (zw ws) g = Some T ->
+    forall r c, length r = nw -> length c = nw ->
+      triples_entry T r c = embed nw ws (csr_entry g) r c.
+  Proof.
+    intros W Cok HT r c Hr Hc.
+    destruct (distribute_inv 0 nw ws g T W HT) as [En [base [EB ->]]].
+    pose proof (compl_length nw ws W) as El.
+    set (cs := compl nw ws) in *. set (m := length ws) in *.
+    assert (Em : zlen (zw ws) = Z.of_nat m) by apply zlen_zw.
+    assert (EK : (Z.of_nat nw - zlen (zw ws) = Z.of_nat (length cs))%Z) by (rewrite Em; lia).
+    set (kr := b2z (gather cs r)). set (kc := b2z (gather cs c)).
+    set (jr := b2z (gather ws r)). set (jc := b2z (gather ws c)).
+    assert (Bkr : (0 <= kr < 2 ^ Z.of_nat (length cs))%Z).
+    { unfold kr. pose proof (b2z_bound (gather cs r)) as B. rewrite gather_length in B. exact B. }
+    assert (Bjr : (0 <= jr < 2 ^ Z.of_nat m)%Z).
+    { unfold jr. pose proof (b2z_bound (gather ws r)) as B. rewrite gather_length in B. exact B. }
+    (* all replicas, k = 0 included *)
+    rewrite <- te_app, te_flat_map.
+    rewrite <- (shift_block_0 base) at 1. rewrite <- (koff_0 nw ws) at 1.
+    rewrite <- (lsum_cons (triples_entry (shift_block (koff nw ws 0) base) r c)).
+    change (triples_entry (shift_block (koff nw ws 0) base) r c
+            :: map (fun k => triples_entry (shift_block (koff nw ws k) base) r c) (zrange 1 (2 ^ (Z.of_nat nw - zlen (zw ws)))))
+      with (map (fun k => triples_entry (shift_block (koff nw ws k) base) r c)
+                (0%Z :: zrange (0 + 1) (2 ^ (Z.of_nat nw - zlen (zw ws))))).
+    rewrite <- zrange_cons by (rewrite EK; lia).
+    rewrite EK.
+    (* only the replica k = kr contributes *)
+    rewrite (lsum_zrange_single _ 0 (2 ^ Z.of_nat (length cs)) kr Bkr).
+    2:{ intros k Hk Hne. rewrite (block_entry nw ws g base _ r c EB). unfold block_sum.
+        apply lsum_map_zero. intros j Hj. apply in_zrange in Hj. rewrite Em in Hj.
+        apply lsum_map_zero. intros i _.
+        rewrite (scatter_eqb nw ws j k r W Hj Hk Hr). fold cs kr.
+        replace (k =? kr)%Z with false by (symmetry; apply Z.eqb_neq; exact Hne).
+        rewrite andb_false_r. reflexivity. }
+    rewrite (block_entry nw ws g base _ r c EB). unfold block_sum. rewrite Em.
+    (* only the gate row j = jr contributes *)
+    rewrite (lsum_zrange_single _ 0 (2 ^ Z.of_nat m) jr Bjr).
+    2:{ intros j Hj Hne. apply lsum_map_zero. intros i _.
+        rewrite (scatter_eqb nw ws j kr r W Hj Bkr Hr). fold jr.
+        replace (j =? jr)%Z with false by (symmetry; apply Z.eqb_neq; exact Hne). reflexivity. }
+    unfold embed. fold cs.
+    transitivity (lsum (map (fun i => if (kr =? kc)%Z
+                                      then (if (znth (c_indices g) i =? jc)%Z then nth (Z.to_nat i) (c_data g) 0 else 0)
+                                      else 0)
+                            (zrange (znth (c_indptr g) jr) (znth (c_indptr g) (jr + 1))))).
+    { apply lsum_map_ext. intros i Hi.
+      rewrite (scatter_eqb nw ws jr kr r W Bjr Bkr Hr). fold jr cs kr. rewrite !Z.eqb_refl. cbn [andb].
+      rewrite (scatter_eqb nw ws _ kr c W (Cok jr i Bjr Hi) Bkr Hc). fold jc cs kc.
+      destruct (znth (c_indices g) i =? jc)%Z; destruct (kr =? kc)%Z; reflexivity. }
+    destruct (Z.eqb_spec kr kc) as [E|E].
+    - unfold kr, kc in E. apply b2z_inj in E; [|rewrite !gather_length; reflexivity].
+      rewrite E, beq_refl. unfold csr_entry. fold jr jc. ring.
+    - destruct (beq (gather cs r) (gather cs c)) eqn:B.
+      + apply beq_eq in B. exfalso. apply E. unfold kr, kc. rewrite B. reflexivity.
+      + rewrite lsum_map_zero by reflexivity. ring.
+  Qed.
+End Main.
